@@ -8,8 +8,10 @@
  * ELEM_* are unconditional, so the tracked slot's state is exactly what the untracked model would compute.
  * Natively (REPLAY) every slot is tracked: the blocks are concretely initialised there.
  *
- * g_lt_waived: known-finding waiver window.  It is 0 everywhere except between two injected ghost statements
- * around the statement(s) a recorded defect sits in, and only in the carved-out main run (KF_<id> == 1).
+ * Known-finding waiver windows (g_lt_wbase, g_lt_wlo/whi): for a lifetime defect that fails on EVERY input an input
+ * region would make the carved-out run vacuous; instead the protocol asserts are switched off for exactly the slot(s)
+ * the recorded defect mistreats, between two injected ghost statements around the faulty statements, and only in the
+ * carved-out main run (KF_<id> == 1).  Everything else in that run (other slots, bounds, values) is still checked.
  */
 #ifndef C02_VEC_H
 #define C02_VEC_H
@@ -18,16 +20,22 @@
 #include <stdbool.h>
 
 size_t g_k;                 /* the tracked slot index (arbitrary) */
-int g_lt_waived;            /* 1 inside a known-finding window of the carved-out run */
+const void *g_lt_wbase;     /* known-finding waiver windows: slots [g_lt_wlo[i], g_lt_whi[i]) of this block are not checked */
+size_t g_lt_wlo[2], g_lt_whi[2];   /* both empty (0, 0) except between two injected ghost statements in a carved-out run (KF_<id> == 1) */
 int g_thrown;               /* at(): `throw std::out_of_range` rewritten to g_thrown = 1; return NULL */
 
 const void *g_solo;         /* a stand-alone ELEM object of the harness (e.g. the `value` argument): always tracked */
 #define C02_SHR >> 0      /* byte offset -> slot index (sizeof(ELEM) == 1) */
+/* q lies in one of the two known-finding waiver windows (slots [lo, hi) of the block g_lt_wbase) */
 #ifdef REPLAY
-#define ELEM_TRACKED(q) (!g_lt_waived)
+#define C02_WAIVED(q) (((const char *)(q) >= (const char *)g_lt_wbase + g_lt_wlo[0] && (const char *)(q) < (const char *)g_lt_wbase + g_lt_whi[0]) || \
+                       ((const char *)(q) >= (const char *)g_lt_wbase + g_lt_wlo[1] && (const char *)(q) < (const char *)g_lt_wbase + g_lt_whi[1]))
+#define ELEM_TRACKED(q) ((const void *)(q) == g_solo || !C02_WAIVED(q))
 #else
-#define ELEM_TRACKED(q) (!g_lt_waived && \
-    (((size_t)__CPROVER_POINTER_OFFSET(q) C02_SHR) == g_k || (const void *)(q) == g_solo))
+#define C02_WAIVED(q) (__CPROVER_same_object(q, g_lt_wbase) && \
+    (((size_t)__CPROVER_POINTER_OFFSET(q) >= g_lt_wlo[0] && (size_t)__CPROVER_POINTER_OFFSET(q) < g_lt_whi[0]) || \
+     ((size_t)__CPROVER_POINTER_OFFSET(q) >= g_lt_wlo[1] && (size_t)__CPROVER_POINTER_OFFSET(q) < g_lt_whi[1])))
+#define ELEM_TRACKED(q) ((const void *)(q) == g_solo || ((((size_t)__CPROVER_POINTER_OFFSET(q)) C02_SHR) == g_k && !C02_WAIVED(q)))
 #endif
 /* 1-byte element representation: one array read / write per element operation and no divider in cbmc's array
  * indexing (with the 8-byte struct the same units run out of memory).  Values are 0..63. */
@@ -110,10 +118,10 @@ static inline void c02_deallocate(struct c02_allocator *a, ELEM *p, size_t n)
     if (b >= 0 && !g_blk_freed[b]) {
 #ifdef REPLAY
         for (size_t i = 0; i < g_blk_n[b]; i++)
-            __CPROVER_assert(g_lt_waived || ELEM_ST(&p[i]) == ELEM_RAW, "lifetime: block released while an element in it is still alive (constructed, never destroyed)");
+            __CPROVER_assert(ELEM_ST(&p[i]) == ELEM_RAW, "lifetime: block released while an element in it is still alive (constructed, never destroyed)");
 #else
         if (g_k < g_blk_n[b])
-            __CPROVER_assert(g_lt_waived || ELEM_ST(&p[g_k]) == ELEM_RAW, "lifetime: block released while an element in it is still alive (constructed, never destroyed)");
+            __CPROVER_assert(ELEM_ST(&p[g_k]) == ELEM_RAW, "lifetime: block released while an element in it is still alive (constructed, never destroyed)");
 #endif
         g_blk_freed[b] = 1;
         C02_RAW_FREE(p);
@@ -126,7 +134,8 @@ static inline void c02_deallocate(struct c02_allocator *a, ELEM *p, size_t n)
 /* goto-instrument --apply-loop-contracts havocs statics: every harness starts with c02_init(k, j) */
 static inline void c02_init(size_t k, size_t j)
 {
-    g_k = k; g_j = j; g_lt_waived = 0; g_thrown = 0; g_solo = 0;
+    g_k = k; g_j = j; g_thrown = 0; g_solo = 0;
+    g_lt_wbase = 0; g_lt_wlo[0] = g_lt_whi[0] = g_lt_wlo[1] = g_lt_whi[1] = 0;
     g_blk_cnt = 0; g_alloc_calls = 0; g_dealloc_calls = 0; g_lex_m = 0;
 }
 #endif
